@@ -1,6 +1,6 @@
-(* C10 — computed witnesses and non-vacuity examples. *)
+(* C10 — computed witnesses and non-vacuity examples around the slow-prune schedule. *)
 From Verif.Base Require Import Tactics.
-From Verif.C10 Require Import Model.
+From Verif.C10 Require Import Extracted Model.
 Local Open Scope nat_scope.
 
 (* timely_b along a run (the prune-side half of the hypothesis) *)
@@ -11,16 +11,38 @@ Fixpoint run_tb (kd : time) (s : st) (es : list ev) : bool :=
   | e :: es' => match step kd s e with Some s' => run_tb kd s' es' | None => false end
   end.
 
-(* The literal premise ("keep-delete exceeds the backup's duration") does not protect a backup:
-   every backup of the run is shorter than keep_delete, every deletion concerns a pack whose
-   keep-delete time had expired when the deleting prune started, yet the last snapshot needs a
-   blob that is stored nowhere. *)
-Lemma slow_prune_refuted_lemma :
-  exists s, run slow_prune_kd init slow_prune_run = Some s /\
-            short_backups slow_prune_kd s = true /\
-            run_tb slow_prune_kd init slow_prune_run = true /\
-            all_stored s = false /\
-            run_timely slow_prune_kd init slow_prune_run = None.
+(* The slow-prune schedule (Model.slow_prune_run): prune 1 plans at t = 0 and is slow; a backup loads the
+   index at t = 5; prune 1 publishes its marks at t = 6; prune 2 starts at t = 10 = 0 + keep_delete and
+   deletes; the backup (7 < 10 long) finishes at t = 12.  With marks dated by the plan time this was a path
+   of the model that lost a blob (the former `slow_prune_refuted`).  With the facts of the repaired source
+   (marks stamped at the index write, expiry tested against the prune's start) it is no longer a path: *)
+Definition slow_prune_prefix : list ev := firstn 26 slow_prune_run.   (* up to prune 2's scan *)
+
+Lemma slow_prune_rejected_lemma :
+  run slow_prune_kd init slow_prune_run = None /\
+  exists s, run slow_prune_kd init slow_prune_prefix = Some s /\ clock s = 10 /\
+            marks_of s = [((0, [1]), 6)] /\                                      (* the mark carries the publication time *)
+            step slow_prune_kd s (PPlan [(0, Delete)] [1]) = None /\             (* 6 + 10 > 10: not expired *)
+            exists s', step slow_prune_kd s (PPlan [(0, KeepMarked)] []) = Some s'.
 Proof.
-  eexists. split; [vm_compute; reflexivity|]. repeat split; vm_compute; reflexivity.
+  split; [vm_compute; reflexivity|]. eexists. split; [vm_compute; reflexivity|].
+  split; [vm_compute; reflexivity|]. split; [vm_compute; reflexivity|]. split; [vm_compute; reflexivity|].
+  eexists. vm_compute. reflexivity.
+Qed.
+
+(* what the repaired code does on that schedule: prune 2 keeps the marked pack, the backup finishes inside the
+   premise (started at 5 <= 6 = publication, 12 < 5 + 10), nothing is lost, and the next prune recovers *)
+Definition slow_prune_fixed_run : list ev :=
+  slow_prune_prefix ++
+  [ PPlan [(0, KeepMarked)] []; PDone;                            (* t = 10: nothing to do *)
+    Tick; Tick; BIndex 1; BSnap 1 ].                              (* t = 12: the backup references blob 1 *)
+Definition slow_prune_recover : list ev :=
+  [ PStart; PScan; PPlan [(0, Recover)] [1]; PWriteIndex; PRmIndex 1; PDone ].
+
+Lemma slow_prune_fixed_example_lemma :
+  exists s s', run_prem slow_prune_kd init slow_prune_fixed_run = Some s /\
+               short_backups slow_prune_kd s = true /\ all_stored s = true /\ all_closed s = false /\
+               run_prem slow_prune_kd s slow_prune_recover = Some s' /\ all_closed s' = true.
+Proof.
+  eexists. eexists. split; [vm_compute; reflexivity|]. repeat split; vm_compute; reflexivity.
 Qed.
